@@ -175,7 +175,7 @@ def domain_job(args) -> dict:
                 prior = (own << 8) | (w & 0xFF)
             elif e["ty"] == "ByteL":
                 prior = (w & 0xFF00) | own
-            sim.set(e["addr"], prior)
+            sim.poke(e["addr"], prior)
             others = {a: sim.get(a) for a in (e["addr"] - 1, e["addr"] + 1)}
             nlog = len(sim.log)
             try:
@@ -225,7 +225,9 @@ def domain_job(args) -> dict:
         pass
     if st != "ok":
         raise engine.MachineryError("domain job did not finish")
-    return {"target": list(target), "id": sid, "bad": bad[:40], "stats": stats}
+    lg = sim.export_log()
+    lg["ops"] = lg["ops"][:3000]
+    return {"target": list(target), "id": sid, "bad": bad[:40], "stats": stats, "oplog": lg}
 
 
 def run_domains(run: Run, tier: str, rnd: random.Random) -> None:
@@ -275,6 +277,8 @@ def run_domains(run: Run, tier: str, rnd: random.Random) -> None:
             run.violation(b["clause"], {"family": x["target"][0], "setting": x["id"], "port": x["target"][3]},
                           {"domain": {"target": x["target"], "id": x["id"], "w": b["w"], "why": b["why"]}})
     run.cov["families"]["domain_settings"] = len(work)
+    from . import checks_sim
+    checks_sim.validate_logs(run, [x.pop("oplog") for x in res], sample=12 if quick else 200, seed=run.seed)
     if res:
         run.cov["samples"].append({"domain": {k: v for k, v in res[0].items() if k != "bad"}})
 
@@ -290,11 +294,14 @@ def check(prop: str, tier: str, seed: int) -> int:
     run = Run(prop, tier, seed, "exploration")
     run.cov["rule"] = RULE
     run.assumptions = ["the simulated inverter applies Modbus function 06/16 and the AA55 register writes to a register file; its behaviour "
-                       "is not trusted for the write clauses (they are judged on the recorded request bytes)",
+                       "is not trusted: the write clauses are judged on the recorded request bytes, and samples of its logs are validated "
+                       "against spec/Registers.tla (TraceRegisters.tla) in every run",
                        "encodable domain and encoding per type: spec/Decode.tla (Encode); values are handed to the library as float(n/den)",
                        "TLC, SANY and the CommunityModules are trusted"]
     rnd = random.Random(seed)
     own = (prop + ".",)
+    from . import checks_sim
+    checks_sim.model_check(run, tier)
     run_domains(run, tier, rnd)
     progs = gen_span_programs(tier, rnd)
     traces = engine.parallel_map("harness.checks_decode", "run_program_values", progs, procs=16, chunk=1)
